@@ -186,20 +186,100 @@ def showCallable (c : Callable) : String :=
 def showProgram (p : Program) : String :=
   join (p.callables.map showCallable ++ [match p.top with | some c => "@ " ++ showCall c | none => "-"])
 
+/-- one operation; `some none` = operation not modelled -/
+def applyOne (p : Program) : List String → Option (Option Program)
+  | [eop, callable, param, new, calls, tops] =>
+    let tops := if tops == "." then [] else tops.splitOn ","
+    match eop with
+    | "renameCallable" => some (some (renameCallable callable new p))
+    | "renameInput" => some (some (renameInput callable param new p))
+    | "renameOutput" => some (some (renameOutput callable param new p))
+    | "removeInput" => some (some (removeInput callable param p))
+    | "removeUnused" => some (some (removeUnused (calls == "1") tops p))
+    | "removeOutput" => some (some (removeOutput callable param p))
+    | _ => none
+  | _ => none
+
+/-- copy to `cur` the binding expressions that differ between `before` and
+`after` (same callable name, call id, binding name): what `editBinding` does. -/
+def transplantBinds (before after cur : List Bind) : List Bind :=
+  cur.map fun b =>
+    match before.find? (·.name == b.name), after.find? (·.name == b.name) with
+    | some b0, some b1 => if b0.exp = b1.exp then b else { b with exp := b1.exp }
+    | _, _ => b
+
+def transplant (before after cur : Program) : Program :=
+  { cur with callables := cur.callables.map fun c =>
+      match before.find? c.name, after.find? c.name with
+      | some c0, some c1 =>
+        { c with
+          calls := c.calls.map (fun k =>
+            match c0.calls.find? (·.id == k.id), c1.calls.find? (·.id == k.id) with
+            | some k0, some k1 => { k with binds := transplantBinds k0.binds k1.binds k.binds }
+            | _, _ => k),
+          ret := transplantBinds c0.ret c1.ret c.ret }
+      | _, _ => c }
+
+/-- Several operations of ONE Refactor call.  Renames are applied to the compiled
+AST as they are made; the edits of a removeInput step are applied to it only when
+the remove-unused loop is requested as well (refactor.go), so without the loop a
+later removal step still analyses the program as it was after the renames
+(`ref`), while the edits of all steps accumulate in the result (`cur`). -/
+def applySeqAux (loop : Bool) (ref cur : Program) : List String → Option (Option Program)
+  | [] => some (some cur)
+  | eop :: callable :: param :: new :: calls :: tops :: rest =>
+    if eop == "removeOutput" then
+      match ref.find? callable with
+      | none => applySeqAux loop ref cur rest
+      | some _ =>
+        -- analysis on `ref`; rewritten binding expressions go to both, removals to the result
+        let (ref', acts) := removeOutputWalk (outFuel ref) callable param (ref, [])
+        let cur' := acts.foldl applyOutAction (transplant ref ref' cur)
+        applySeqAux loop (if loop then acts.foldl applyOutAction ref' else ref') cur' rest
+    else if eop == "removeInput" then
+      match ref.find? callable with
+      | none => applySeqAux loop ref cur rest
+      | some _ =>
+        let pairs := removeInputClosure ref (closureFuel ref) [(callable, param)] []
+        let cur' := removeInputs pairs cur
+        applySeqAux loop (if loop then removeInputs pairs ref else ref) cur' rest
+    else
+      match applyOne cur [eop, callable, param, new, calls, tops] with
+      | some (some cur') =>
+        if eop == "removeUnused" then applySeqAux loop cur' cur' rest
+        else
+          match applyOne ref [eop, callable, param, new, calls, tops] with
+          | some (some ref') => applySeqAux loop ref' cur' rest
+          | r => r
+      | r => r
+  | _ => none
+termination_by l => l.length
+
+def stepsHaveLoop : List String → Bool
+  | eop :: _ :: _ :: _ :: calls :: tops :: rest =>
+    (eop == "removeUnused" && (calls == "1" || tops != ".")) || stepsHaveLoop rest
+  | _ => false
+termination_by l => l.length
+
+def applySeq (p : Program) (steps : List String) : Option (Option Program) :=
+  applySeqAux (stepsHaveLoop steps) p p steps
+
 def handle (op : String) (args : List String) : Option String :=
   match op, args with
   | "ping", _ => some "pong"
   | "apply", [prog, eop, callable, param, new, calls, tops] => do
     let p ← pProgram (prog.splitOn " ") []
-    let tops := if tops == "." then [] else tops.splitOn ","
-    match eop with
-    | "renameCallable" => some (showProgram (renameCallable callable new p))
-    | "renameInput" => some (showProgram (renameInput callable param new p))
-    | "renameOutput" => some (showProgram (renameOutput callable param new p))
-    | "removeInput" => some (showProgram (removeInput callable param p))
-    | "removeUnused" => some (showProgram (removeUnused (calls == "1") tops p))
-    | "removeOutput" => some "unsupported"
-    | _ => none
+    match applyOne p [eop, callable, param, new, calls, tops] with
+    | some (some p') => some (showProgram p')
+    | some none => some "unsupported"
+    | none => none
+  | "applyseq", prog :: steps => do
+    -- several operations of one Refactor call = the composition of the single steps
+    let p ← pProgram (prog.splitOn " ") []
+    match applySeq p steps with
+    | some (some p') => some (showProgram p')
+    | some none => some "unsupported"
+    | none => none
   | "thm", [prog, x, y, calls, tops] => do
     -- instances of the property theorems on a concrete program (falsification test)
     let p ← pProgram (prog.splitOn " ") []
@@ -212,6 +292,9 @@ def handle (op : String) (args : List String) : Option String :=
     let dec := !st.2 || decide (measure st.1 < measure p)
     let fix := !(removeStep p (calls == "1") tops (removeLoop p (calls == "1") tops (measure p + 1) p)).2
     some (s!"wf={wf} fresh={fresh} rt={rt} cg={cg} dec={dec} fix={fix} found={(p.find? x).isSome}")
+  | "thmout", [prog, x, o] => do
+    let p ← pProgram (prog.splitOn " ") []
+    some (s!"unref={outputUnreferenced x o p} same={decide (removeOutput x o p = removeOutputPlain x o p)}")
   | "roundtrip", [prog] => do
     let p ← pProgram (prog.splitOn " ") []
     some (showProgram p)
